@@ -255,6 +255,69 @@ Definition resume_at (p : path) (n : node) : node * outcome :=
   else (n, OutOfClass).
 
 (* ------------------------------------------------------------------ *)
+(* deferred report of a pause / resume to a with-items parent task      *)
+
+(* task_handler._scheduled_on_action_update -> _on_action_update for the sub-workflow at the address (scheduled by
+   schedule_on_action_update when the parent task is with-items; a Plain parent is updated at once, see pause_path /
+   resume_path): nothing for a finished sub-workflow; a PAUSED one: Task.update(PAUSED), then pause_workflow of the
+   task's workflow (which comes DOWN again to the sibling items and goes on upwards); a RUNNING one:
+   Task.update(RUNNING) unless another child is PAUSED, then - if no task of the workflow is PAUSED - resume_workflow *)
+Inductive note := NPause | NResume | NNone.
+
+Definition up_pause (st : state) (info sent : nat) (ts : list task) (ti : nat) (s : state) (k : kind) (subs : list node) : node * note :=
+  let s1 := if is_completed st then ERROR else task_pause s in
+  (pause_down (mkN st info sent (upd ti (fun _ => (s1, k, subs)) ts)), if state_eqb st RUNNING then NPause else NNone).
+
+Definition up_resume (st : state) (info sent : nat) (ts : list task) (ti : nat) (s : state) (k : kind) (subs : list node) : node * note :=
+  let s1 := if existsb (fun x => state_eqb (nstate x) PAUSED) subs then s else task_resume s in
+  let ts1 := upd ti (fun _ => (s1, k, subs)) ts in
+  if any_task_paused ts1 then (mkN st info sent ts1, NNone)
+  else (resume_down (mkN st info sent ts1), if resumable st then NResume else NNone).
+
+Fixpoint notify_path (p : path) (n : node) : option (node * note) :=
+  match p with
+  | [] => None
+  | (ti, si) :: rest =>
+    match n with
+    | mkN st info sent ts =>
+      match nth_error ts ti with
+      | None => None
+      | Some (s, k, subs) =>
+        match nth_error subs si with
+        | None => None
+        | Some c =>
+          match rest with
+          | [] =>
+            if finished c then Some (n, NNone)
+            else if state_eqb (nstate c) PAUSED then Some (up_pause st info sent ts ti s k subs)
+            else if is_running (nstate c) then Some (up_resume st info sent ts ti s k subs)
+            else Some (n, NNone)
+          | _ =>
+            match notify_path rest c with
+            | None => None
+            | Some (c', nt) =>
+              let subs' := upd si (fun _ => c') subs in
+              match nt, k with
+              | NPause, Plain => Some (up_pause st info sent ts ti s k subs')
+              | NResume, Plain => Some (up_resume st info sent ts ti s k subs')
+              | _, _ => Some (mkN st info sent (upd ti (fun _ => (s, k, subs')) ts), NNone)
+              end
+            end
+          end
+        end
+      end
+    end
+  end.
+
+Definition notify_at (p : path) (n : node) : node * outcome :=
+  if in_class n
+  then match notify_path p n with
+       | Some (n', _) => if settled n' then (n', Ok) else (n, OutOfClass)
+       | None => (n, Declared)
+       end
+  else (n, OutOfClass).
+
+(* ------------------------------------------------------------------ *)
 (* hand-off of a finished sub-workflow to its parent task               *)
 
 (* what the parent task becomes when the result of one of its finished sub-workflows is processed: a function of
@@ -306,13 +369,14 @@ Definition deliver_at (p : path) (n : node) : node * outcome :=
 
 (* ------------------------------------------------------------------ *)
 (* sequences of requests                                                *)
-Inductive op := OStop (s : state) (m : nat) (p : path) | OPause (p : path) | OResume (p : path) | ODeliver (p : path).
+Inductive op := OStop (s : state) (m : nat) (p : path) | OPause (p : path) | OResume (p : path) | ODeliver (p : path) | ONotify (p : path).
 Definition apply_op (n : node) (o : op) : node :=
   match o with
   | OStop s m p => fst (stop_at s m p n)
   | OPause p => fst (pause_at p n)
   | OResume p => fst (resume_at p n)
   | ODeliver p => fst (deliver_at p n)
+  | ONotify p => fst (notify_at p n)
   end.
 
 (* printer for the correspondence suite *)
